@@ -594,6 +594,8 @@ pub fn run(ctx: &mut Ctx) {
             }
         }
     }
+    // coverage-guided search over the same strategies and oracles (thorough tier; see ptfuzz.rs)
+    crate::ptfuzz::thorough(ctx, &[("c04z", 8, 2_000_000)]);
 }
 
 pub fn replay(ctx: &mut Ctx, sub: &str, case: &Value) {
